@@ -143,3 +143,84 @@ func loopReturnRule(r *Report, p *Prog, rule string, fns []*ssa.Function) int {
 	}
 	return n
 }
+
+// equalConjunctiveRule: an Equal method over a value with several components is
+// a conjunction: it may answer true only after every component was found
+// equal. A branch that returns true as soon as ONE comparison succeeds, while
+// its other arm goes on to compare something else, accepts a partial match
+// (resolve.Version.Equal answered true for equal keys whatever the attributes,
+// and for different keys whose attributes were equal). A pointer-identity
+// shortcut is not such a branch.
+func equalConjunctiveRule(r *Report, p *Prog, rule string, pkgs ...string) int {
+	n := 0
+	for _, f := range p.Funcs {
+		if f.Pkg == nil || f.Blocks == nil || f.Synthetic != "" || f.Name() != "Equal" || f.Signature.Recv() == nil {
+			continue
+		}
+		in := false
+		for _, pk := range pkgs {
+			if f.Pkg.Pkg.Path() == modPrefix+pk {
+				in = true
+			}
+		}
+		res := f.Signature.Results()
+		if !in || res.Len() != 1 {
+			continue
+		}
+		if bt, ok := res.At(0).Type().Underlying().(*types.Basic); !ok || bt.Kind() != types.Bool {
+			continue
+		}
+		n++
+		key := fnKey(f) + ": true only after every comparison"
+		retConst := func(b *ssa.BasicBlock) (bool, bool) { // (value, isConstReturn)
+			if len(b.Instrs) == 0 {
+				return false, false
+			}
+			ret, ok := b.Instrs[len(b.Instrs)-1].(*ssa.Return)
+			if !ok || len(ret.Results) != 1 {
+				return false, false
+			}
+			c, ok := ret.Results[0].(*ssa.Const)
+			if !ok || c.Value == nil || c.Value.Kind() != constant.Bool {
+				return false, false
+			}
+			return constant.BoolVal(c.Value), true
+		}
+		var badAt token.Pos
+		for _, b := range f.Blocks {
+			ifi, ok := b.Instrs[len(b.Instrs)-1].(*ssa.If)
+			if !ok {
+				continue
+			}
+			// pointer identity shortcut?
+			if bo, ok := ifi.Cond.(*ssa.BinOp); ok {
+				if _, isPtr := bo.X.Type().Underlying().(*types.Pointer); isPtr {
+					continue
+				}
+			}
+			for k := 0; k < 2; k++ {
+				v, isC := retConst(b.Succs[k])
+				if !isC || !v {
+					continue
+				}
+				// the other arm: does it go on comparing (anything but `return false`)?
+				ov, oc := retConst(b.Succs[1-k])
+				if oc && !ov {
+					continue
+				}
+				if !badAt.IsValid() {
+					badAt = ifi.Cond.Pos()
+					if !badAt.IsValid() {
+						badAt = f.Pos()
+					}
+				}
+			}
+		}
+		if badAt.IsValid() {
+			r.bad(rule, key, p.pos(badAt), "a branch answers true as soon as this one comparison succeeds while its other arm goes on to compare something else: values that agree in one component only are reported equal")
+		} else {
+			r.ok(rule, key, p.pos(f.Pos()), "no branch returns true on a partial comparison")
+		}
+	}
+	return n
+}
